@@ -25,6 +25,22 @@ use std::panic;
 
 type R = Option<String>;
 
+/// a legal `Read` that hands out at most `chunk` bytes per call (short reads), to exercise callers that
+/// must use `read_exact`
+struct Chunked<'a> {
+    data: &'a [u8],
+    pos: usize,
+    chunk: usize,
+}
+impl<'a> io::Read for Chunked<'a> {
+    fn read(&mut self, buf: &mut [u8]) -> io::Result<usize> {
+        let n = buf.len().min(self.chunk).min(self.data.len() - self.pos);
+        buf[..n].copy_from_slice(&self.data[self.pos..self.pos + n]);
+        self.pos += n;
+        Ok(n)
+    }
+}
+
 // ------------------------------------------------------------------ parsing helpers
 
 fn hexval(c: u8) -> Option<u64> {
@@ -577,6 +593,22 @@ macro_rules! group_impl {
                             Err(e) => show_ioerr(&e),
                         }
                     }
+                    ("deser_aff_ch", 3) => {
+                        let bs = parse_bytes(a[0])?;
+                        let mut rd = Chunked { data: &bs[..], pos: 0, chunk: parse_usize(a[2])?.max(1) };
+                        match $aff::deserialize(&mut rd, a[1] == "1") {
+                            Ok(p) => format!("{} {}", show_aff(&p), rd.pos),
+                            Err(e) => show_ioerr(&e),
+                        }
+                    }
+                    ("deser_jac_ch", 3) => {
+                        let bs = parse_bytes(a[0])?;
+                        let mut rd = Chunked { data: &bs[..], pos: 0, chunk: parse_usize(a[2])?.max(1) };
+                        match $proj::deserialize(&mut rd, a[1] == "1") {
+                            Ok(p) => format!("{} {}", show_jac(&p), rd.pos),
+                            Err(e) => show_ioerr(&e),
+                        }
+                    }
                     ("deser_jac", 2) => {
                         let bs = parse_bytes(a[0])?;
                         let mut rd = &bs[..];
@@ -720,6 +752,22 @@ fn misc_op(op: &str, a: &[&str]) -> R {
             let mut rd = &bs[..];
             match Fr::deserialize(&mut rd, true) {
                 Ok(p) => format!("{} {}", p.show(), bs.len() - rd.len()),
+                Err(e) => show_ioerr(&e),
+            }
+        }
+        ("deser_fr_ch", 2) => {
+            let bs = parse_bytes(a[0])?;
+            let mut rd = Chunked { data: &bs[..], pos: 0, chunk: parse_usize(a[1])?.max(1) };
+            match Fr::deserialize(&mut rd, true) {
+                Ok(p) => format!("{} {}", p.show(), rd.pos),
+                Err(e) => show_ioerr(&e),
+            }
+        }
+        ("deser_fq12_ch", 2) => {
+            let bs = parse_bytes(a[0])?;
+            let mut rd = Chunked { data: &bs[..], pos: 0, chunk: parse_usize(a[1])?.max(1) };
+            match Fq12::deserialize(&mut rd, true) {
+                Ok(p) => format!("{} {}", p.show(), rd.pos),
                 Err(e) => show_ioerr(&e),
             }
         }
